@@ -35,8 +35,45 @@ def _check_repo_binding():
 _MOD = None
 
 
+_LINES: set = set()
+_FLUSHED = 0
+
+
+def _linecov_install():
+    """Development diagnostic (VERIF_LINECOV=<dir>, never set by a registered command): which lines of the library the
+    check executes, via sys.monitoring LINE events that disable themselves after the first hit (negligible overhead)."""
+    if not os.environ.get("VERIF_LINECOV") or not hasattr(sys, "monitoring"):
+        return
+    mon = sys.monitoring
+    root = os.path.realpath(os.path.join(os.environ.get("VERIF_REPO", "/repo"), "src")) + os.sep
+    try:
+        mon.use_tool_id(mon.COVERAGE_ID, "verif-linecov")
+    except ValueError:
+        return  # already installed in this process (fork of an instrumented parent)
+
+    def on_line(code, line):
+        if code.co_filename.startswith(root):
+            _LINES.add((code.co_filename[len(root):], line))
+        return mon.DISABLE
+
+    mon.register_callback(mon.COVERAGE_ID, mon.events.LINE, on_line)
+    mon.set_events(mon.COVERAGE_ID, mon.events.LINE)
+
+
+def _linecov_flush():
+    global _FLUSHED  # noqa: PLW0603
+    d = os.environ.get("VERIF_LINECOV")
+    if not d or len(_LINES) == _FLUSHED:
+        return
+    os.makedirs(d, exist_ok=True)
+    with open(os.path.join(d, f"{os.getpid()}.txt"), "w") as fh:
+        fh.write("\n".join(f"{f}:{n}" for f, n in sorted(_LINES)))
+    _FLUSHED = len(_LINES)
+
+
 def _worker_init(prop):
     global _MOD  # noqa: PLW0603
+    _linecov_install()
     _MOD = _import_prop(prop)
     if hasattr(_MOD, "worker_init"):
         _MOD.worker_init()
@@ -56,6 +93,7 @@ def _worker_run(args):
     idx, item = args
     try:
         res = _MOD.run_item(item)
+        _linecov_flush()
         return idx, res, None
     except Exception as exc:  # noqa: BLE001
         # An exception that escaped a check and was raised inside the library on an input of the announced lattice is a
